@@ -188,8 +188,14 @@ var vLeafTypes = []reflect.Type{gen.TString, gen.TString, gen.TString, gen.TBool
 
 // tunedFill fills a value of a tagged type so that values sit near the bounds of the rules.
 func tunedFill(rng *rand.Rand, t reflect.Type, tagName string, pZero float64) reflect.Value {
-	vo := gen.ValueOpts{PZero: pZero, PEmpty: 0.15, MaxLen: 3, NilElems: true,
+	vo := gen.ValueOpts{PZero: pZero, PEmpty: 0.15, MaxLen: 3, NilElems: true, MaxStructDepth: 4,
 		Leaf: func(rng *rand.Rand, lt reflect.Type, tag reflect.StructTag) (reflect.Value, bool) {
+			if lt == gen.TTime {
+				if rng.Intn(2) == 0 {
+					return reflect.ValueOf(time.Unix(int64(rng.Intn(1<<30)), 0).UTC()), true
+				}
+				return reflect.Zero(lt), true
+			}
 			switch lt.Kind() {
 			case reflect.Ptr, reflect.Map, reflect.Array, reflect.Struct, reflect.Interface:
 				return reflect.Value{}, false
